@@ -1,13 +1,22 @@
 #!/bin/bash
-# usage: try_mutant.sh <patch.diff> <prop> [<prop> ...]   -- applies the patch to /repo, runs the quick checks, reverts
+# usage: try_mutant.sh <patch.diff> <prop> [<prop> ...]
+# Applies the patch to a scratch worktree of /repo (so that /repo itself and any background run stay
+# untouched), runs the quick checks against it (PYMWP_REPO), removes the worktree.
+# With MUT_IN_REPO=1 the patch is applied to /repo itself and reverted afterwards.
 set -u
-PATCH="$1"; shift
-cd /repo || exit 2
-if ! git diff --quiet; then echo "/repo is dirty"; exit 2; fi
-git apply "$PATCH" || { echo "patch does not apply"; exit 2; }
+PATCH="$(readlink -f "$1")"; shift
+if [ "${MUT_IN_REPO:-0}" = "1" ]; then
+  cd /repo || exit 2
+  git diff --quiet || { echo "/repo is dirty"; exit 2; }
+  git apply "$PATCH" || { echo "patch does not apply"; exit 2; }
+  TREE=/repo
+else
+  TREE=$(mktemp -d /tmp/mutrun.XXXXXX); rmdir "$TREE"
+  git -C /repo worktree add -q --detach "$TREE" HEAD || exit 2
+  git -C "$TREE" apply "$PATCH" || { echo "patch does not apply"; git -C /repo worktree remove --force "$TREE"; exit 2; }
+fi
 for p in "$@"; do
-  ( cd /verif && VERIF_SEED=${VERIF_SEED:-0} timeout 900 /venv/bin/python harness/check.py "$p" --tier ${TIER:-quick} 2>&1 | grep -v conda | grep -E "VIOLATION|KNOWN|exit|INFRA" | head -6 )
+  ( cd /verif && PYMWP_REPO=$TREE VERIF_SEED=${VERIF_SEED:-0} timeout 1200 /venv/bin/python harness/check.py "$p" --tier ${TIER:-quick} 2>&1 | grep -v conda | grep -E "VIOLATION|exit|INFRA" | head -6 )
 done
-git -C /repo checkout -- . 
-# regenerate tables for the clean tree
+if [ "${MUT_IN_REPO:-0}" = "1" ]; then git -C /repo checkout -- .; else git -C /repo worktree remove --force "$TREE"; fi
 ( cd /verif && /venv/bin/python harness/gen_lean.py >/dev/null 2>&1 )
